@@ -64,9 +64,16 @@ def pipeline(run, kind, race=False):
     obs = os.path.join(run.scratch, "obs.ndjson")
     work = os.path.join(run.scratch, "work")
     args = ["rules", "-scen", scen, "-obs", obs, "-work", work]
+    trace = None
+    if kind in ("C11", "C13") or run.tier == "thorough":
+        trace = os.path.join(run.scratch, "rules-trace.ndjson")
+        args += ["-trace", trace]
     if race:
         args += ["-race", "-race-every", "2" if run.tier == "thorough" else "5"]
     summ = run.harness(args, timeout=7200)
+    if trace:
+        # B2: every logged rule choice must be the first matching builder of the chain for the logged type features
+        run.validate_trace("Trace_Gen", trace, invariants=["SigConsistentAtAppend"], properties=["ExplicitFrozen"], what="rules-family programs", timeout=3600)
     run.fam = "rules"
     run.scen_files["rules"] = scen
     n = run.validate_obs("Obs_Rules", obs, workers=1, timeout=3600)
